@@ -42,8 +42,14 @@ class Evaluator:
             return l + r if isinstance(e.op, ast.Add) else l - r
         if isinstance(e, ast.UnaryOp) and isinstance(e.op, ast.USub):
             return -self.num(e.operand)
+        if isinstance(e, ast.Call) and isinstance(e.func, ast.Name) and e.func.id == "float" and len(e.args) == 1 and isinstance(e.args[0], ast.Constant) \
+                and isinstance(e.args[0].value, str) and e.args[0].value.strip().lower() in ("inf", "+inf", "-inf", "infinity", "-infinity"):
+            return float(e.args[0].value)
         if isinstance(e, ast.Call) and isinstance(e.func, ast.Name) and e.func.id in ("int", "float") and len(e.args) == 1:
             return self.num(e.args[0])
+        if isinstance(e, ast.Call) and isinstance(e.func, ast.Name) and e.func.id in ("max", "min") and len(e.args) >= 2 and not e.keywords:
+            vals = [self.num(a) for a in e.args]
+            return max(vals) if e.func.id == "max" else min(vals)
         if isinstance(e, ast.IfExp):
             return self.num(e.body) if self.truth(e.test) else self.num(e.orelse)
         raise Unknown(e)
@@ -95,6 +101,15 @@ class Evaluator:
         d = flow.dump(e)
         if d in self.terms:  # a term used for its truthiness (count != 0)
             return bool(self.terms[d])
+        if f"len({d})" in self.terms:  # a collection used for its truthiness: non-empty
+            return bool(self.terms[f"len({d})"])
+        if isinstance(e, ast.Call) and flow.dump(e.func) == "TupleOps.is_empty" and len(e.args) == 1 and f"len({flow.dump(e.args[0])})" in self.terms:
+            return self.terms[f"len({flow.dump(e.args[0])})"] == 0  # the repository's own `len(xs) == 0`
+        if isinstance(e, ast.Call) and isinstance(e.func, ast.Attribute) and e.func.attr == "isdisjoint" and len(e.args) == 1 and not e.keywords:
+            a, b = flow.dump(e.func.value), flow.dump(e.args[0])
+            for k in (f"len({a}.intersection({b}))", f"len({b}.intersection({a}))", f"len({a} & {b})", f"len({b} & {a})"):
+                if k in self.terms:
+                    return self.terms[k] == 0
         if d not in self.free:
             self.requested.append(d)
             raise Unknown(e)
